@@ -270,6 +270,38 @@ def run(args) -> int:
                     "small_pipes": True,
                 }
             )
+    # keyword combinations, systematically, on the probe program: default / all together with every single trait
+    # and every pair of traits, in seeded order (the union must be taken whatever the order)
+    if cfg["enumerate"]:
+        import itertools
+
+        krng = stream(seed, "c19", "enum-kw")
+        combos = []
+        for k in (1, 2):
+            for sub in itertools.combinations(NAMES, k):
+                combos.append(["default"] + list(sub))
+        for x in NAMES:
+            combos.append(["all", x])
+        combos.append(["default", "all"])
+        for toks in combos:
+            toks = list(toks)
+            krng.shuffle(toks)
+            spec = {"enable": toks}
+            runs.append(
+                {
+                    "program": "probe",
+                    "spec": spec,
+                    "argv": climodel.render(spec, krng),
+                    "acls": "enum-kw",
+                    "scls": "one-block/drain4096/random/pipe",
+                    "chunks": [],
+                    "drain_seed": 0,
+                    "drain_sizes": [4096],
+                    "drain_policy": "random",
+                    "buffering": "pipe",
+                    "small_pipes": True,
+                }
+            )
     rng = stream(seed, "c19", "sampled")
     weights = [6 if p == "probe" else (1 if p in ("big", "longline") else 3) for p in pids]
     for _ in range(cfg["sampled"]):
@@ -320,7 +352,7 @@ def run(args) -> int:
             for rn, ev in zip(job["runs"], evs):
                 v = ev["verdict"]
                 stats["verdicts"][v] = stats["verdicts"].get(v, 0) + 1
-                ac = rn["acls"].split("|")[0] if not rn["acls"].startswith("enum") else "enum"
+                ac = rn["acls"].split("|")[0] if not rn["acls"].startswith("enum:") else "enum"
                 stats["arg_classes"][ac] = stats["arg_classes"].get(ac, 0) + 1
                 sc = rn["scls"].split("/")[0]
                 stats["sched_classes"][sc] = stats["sched_classes"].get(sc, 0) + 1
